@@ -13,7 +13,10 @@ EXTENDS RuleSet, TLC, Json, FiniteSets
 CONSTANTS MaxCalls, NArgs, NEvals
 VARIABLE c        \* sequence of [fn, arg, cut]  (cut: this call starts a new rule)
 
-ArgPool == << I(1), St("1"), VVec(<<I(1)>>), Fl(1, 1, 0), St("i1"), Dc(1, 0), VMap(<< <<S("a"), I(1)>> >>), I(2) >>
+\* distinct-but-similar arguments; argument identity is identity of the value as written: 0.0 and -0.0, 1.0 and
+\* 1.00 are different arguments (a function can tell them apart), NaN is one argument
+ArgPool == << I(1), St("1"), VFloat(FZero(1)), VFloat(FZero(-1)), Dc(10, 1), Dc(100, 2), VFloat(FNaN), VVec(<<I(1)>>),
+              Fl(1, 1, 0), St("i1"), Dc(1, 0), VMap(<< <<S("a"), I(1)>> >>), I(2) >>
 Args == SubSeq(ArgPool, 1, NArgs)
 Tagged == <<[r |-> "tagged"]>>
 Funcs == << [name |-> S("f"), cacheable |-> TRUE, suspend |-> 0, script |-> Tagged],
